@@ -136,3 +136,23 @@ func loopComplete(c *core.Ctx, l *core.Loop, allow func(e core.Exit) bool) strin
 	}
 	return ""
 }
+
+// edgeFact returns an edge predicate accepting CFG edges on which the branch condition itself
+// establishes a fact accepted by pred.
+func edgeFact(pred func(f core.Fact, cd core.Cond) bool) func(b *ssa.BasicBlock, succ int) bool {
+	return func(b *ssa.BasicBlock, succ int) bool {
+		ifi, ok := b.Instrs[len(b.Instrs)-1].(*ssa.If)
+		if !ok || b.Succs[0] == b.Succs[1] {
+			return false
+		}
+		conds := core.CondsOnEdge(b, succ)
+		if len(conds) == 0 {
+			return false
+		}
+		cd := conds[len(conds)-1]
+		if cd.If != ifi {
+			return false
+		}
+		return pred(core.FactOf(cd), cd)
+	}
+}
